@@ -56,6 +56,9 @@ def strategy_(draw):
         # DataFrame row labels: default, shifted, or a permutation of 0..n-1 (what sort_values / iloc[::-1] without
         # reset_index leave behind) - the rows themselves are always in increasing pressure
         "container": draw(st.sampled_from(["dict", "dataframe", "dataframe-offset-index", "dataframe-permuted-index"])),
+        # the rows of the relative-permeability table in increasing oil saturation (as the helper returns them), in
+        # decreasing oil saturation (a gas/oil table listed against increasing Sg) or in no particular order
+        "kr_rows": draw(st.sampled_from(["ascending-So", "ascending-So", "descending-So", "unordered"])),
     }
 
 
@@ -145,6 +148,12 @@ def check_case(case) -> Result:
     import warnings
 
     tab_in = dict(tab)
+    kr_rows = case.get("kr_rows", "ascending-So")
+    res.labels["kr_rows"] = kr_rows
+    if kr_rows != "ascending-So":
+        nk = len(kr_table["So"])
+        order = np.arange(nk)[::-1] if kr_rows == "descending-So" else np.concatenate([np.arange(1, nk, 2), np.arange(0, nk, 2)[::-1]])
+        kr_table = {k: np.asarray(v)[order].copy() for k, v in kr_table.items()}
     res.labels["container"] = case["container"]
     if case["container"].startswith("dataframe"):
         import pandas as pd
